@@ -139,13 +139,13 @@ func (a *AliasMangler) Unmangle(sf reflect.StructField, fvs []FieldValueTuple) (
 		return reflect.Value{}, fmt.Errorf("expected 1 or 2 tuples, got %d", len(fvs))
 	}
 
-	if !fvs[0].Value.IsNil() && !fvs[1].Value.IsNil() {
+	if !aliasUnset(fvs[0].Value) && !aliasUnset(fvs[1].Value) {
 		return reflect.Value{}, fmt.Errorf("both alias and original set for field %q", sf.Name)
 	}
 
-	// return the first one that isn't nil
+	// return the first one that is set
 	for _, fv := range fvs {
-		if !fv.Value.IsNil() {
+		if !aliasUnset(fv.Value) {
 			return fv.Value, nil
 		}
 	}
@@ -153,6 +153,19 @@ func (a *AliasMangler) Unmangle(sf reflect.StructField, fvs []FieldValueTuple) (
 	// if we made it this far, they were both nil, which is fine -- just return
 	// one of them.
 	return fvs[0].Value, nil
+}
+
+// aliasUnset reports whether a field value counts as "not supplied". Fields of
+// a pointerified struct are nil when unset; the fields of structs held in
+// slices and arrays are not pointerified, there the zero value is all there
+// is to go by.
+func aliasUnset(v reflect.Value) bool {
+	switch v.Kind() {
+	case reflect.Pointer, reflect.Slice, reflect.Map, reflect.Interface, reflect.Chan, reflect.Func:
+		return v.IsNil()
+	default:
+		return v.IsZero()
+	}
 }
 
 // ShouldRecurse is called after Mangle for each field so nested struct
